@@ -156,6 +156,16 @@ TABLE.update({
                   (r"^IdRanges::contains_clock\(BTreeMap::get\(\$1\.0, \$2\.client\), \$2\.clock\)$", "C")],
         "req": lambda n: n["E"] and n["C"],
     },
+    "branch_eq": {
+        "fn": "<yrs::branch::Branch as std::cmp::PartialEq>::eq",
+        "why": "two branches are the same collection iff item, start, map, block_len and type_ref all agree — Branch::is_parent_of (the "
+               "undo manager's scope test) compares branches with it: all empty-start root maps share item = None, start = None and "
+               "block_len = 0, only `map` tells them apart",
+        "atoms": [(r"^PartialEq>::eq\(\$1\.item, \$2\.item\)$", "I"), (r"^PartialEq>::eq\(\$1\.start, \$2\.start\)$", "S"),
+                  (r"^PartialEq>::eq\(\$1\.map, \$2\.map\)$", "M"), (r"^\(\$1\.block_len Eq \$2\.block_len\)$", "L"),
+                  (r"^PartialEq>::eq\(\$1\.type_ref, \$2\.type_ref\)$", "T")],
+        "req": lambda n: n["I"] and n["S"] and n["M"] and n["L"] and n["T"],
+    },
     "link_is_single": {
         "fn": "yrs::types::weak::LinkSource::is_single",
         "why": "a link quotes a single element iff both boundaries are element-relative and name the SAME id (client and clock): "
